@@ -5,7 +5,7 @@
    reals + one absorbing NaN); only the standard-library Reals axioms.                                   *)
 From Coq Require Import ZArith List Reals.
 From Tevec Require Import Base.Prelude Base.Num Base.XR Model.Driver Proofs.Driver Model.Cmp Spec.Extrema
-     Proofs.IdxRun Proofs.Cmp Proofs.Rank Spec.Stats Model.Features Model.Norm Proofs.Norm.
+     Proofs.IdxRun Proofs.Cmp Proofs.Rank Spec.Stats Model.Features Model.Norm Proofs.Norm Proofs.MinMax.
 Import ListNotations.
 
 (* the comparisons of isnone.rs at the integer carrier are the null-last order *)
@@ -146,9 +146,11 @@ Theorem C03_ts_vzscore :
               end).
 Proof. exact ts_vzscore_spec. Qed.
 
-(* (6) min-max normalisation.  Full statement (tmin / tmax: the sentinels T::Inner::min_() / max_(), every
-   element within them): *)
-Definition C03_minmaxnorm_full_statement : Prop :=
+(* (6) min-max normalisation = (x - min) / (max - min) over the non-null window (tmin / tmax: the sentinels
+   T::Inner::min_() / max_(), every element within them — DESIGN 5.2); null when x is null, max = min, or below
+   min_periods.  The window is NOT clamped here and the two driver bodies differ in the start index they pass at
+   the last position when w > len; the theorem covers both. *)
+Theorem C03_ts_vminmaxnorm :
   forall (lo hi : R) (body : bool) (w : nat) (mp : option nat) (xs : list XR), 1 <= w ->
     (forall r, In (Some r) xs -> (lo <= r <= hi)%R) ->
     exists out, ts_vminmaxnorm (Some lo) (Some hi) body w mp xs = Done out /\ length out = length xs /\
@@ -163,15 +165,13 @@ Definition C03_minmaxnorm_full_statement : Prop :=
                   else None
               | _ => None
               end).
+Proof. exact ts_vminmaxnorm_spec. Qed.
 
-(* proved part: the closed form of the emitted value once the cached maximum / minimum are those of the window
-   (the cache invariant of the lazily re-searched pair is covered by the correspondence run only) *)
-Theorem C03_ts_vminmaxnorm_partial :
-  forall (mp n : nat) (x mx mn : R),
-    (if (mp <=? n) && negb (neqb (Some mx) (Some mn))
-     then ndiv (nsub (Some x) (Some mn)) (nsub (Some mx) (Some mn)) else nnan) =
-    if mp <=? n then (if Req_EM_T mx mn then None else Some ((x - mn) / (mx - mn))%R) else None.
-Proof. exact mmnorm_emit_closed. Qed.
+(* lmaxR / lminR are the greatest / least element *)
+Theorem C03_lmaxR_lminR_meaning :
+  forall (l : list R) (m : R), In m l ->
+    ((forall a, In a l -> (a <= m)%R) -> lmaxR l = m) /\ ((forall a, In a l -> (m <= a)%R) -> lminR l = m).
+Proof. intros l m Hin. split; intros H; [apply lmaxR_spec|apply lminR_spec]; assumption. Qed.
 
 (* ---- non-vacuity --------------------------------------------------------------------------------- *)
 Definition Dopt : IsNone (option Z) Z := IsNone_option.
@@ -196,6 +196,10 @@ Example C03_example_invariant_premise :
   forall a b : option Z, sort_cmp a b = ocmp (option_map (fun x => x) a) (option_map (fun x => x) b).
 Proof. intros a b. rewrite sort_cmp_Z. destruct a, b; reflexivity. Qed.
 
+Example C03_example_minmaxnorm_premise :
+  forall r, In (Some r) [Some 1%R; None; Some 3%R] -> (0 <= r <= 4)%R.
+Proof. intros r [H|[H|[H|[]]]]; try discriminate; injection H as <-; split; Lra.lra. Qed.
+
 Print Assumptions C03_sort_cmp_nulls_last.
 Print Assumptions C03_ts_vmin.
 Print Assumptions C03_ts_vmax.
@@ -208,4 +212,5 @@ Print Assumptions C03_rank_counts.
 Print Assumptions C03_ts_vrank.
 Print Assumptions C03_rank_rev_is_descending.
 Print Assumptions C03_ts_vzscore.
-Print Assumptions C03_ts_vminmaxnorm_partial.
+Print Assumptions C03_ts_vminmaxnorm.
+Print Assumptions C03_lmaxR_lminR_meaning.
